@@ -149,18 +149,21 @@ def call_pressure(im, vcc, cal, v):
     try:
         d = devices(im)
         cls = im.pressure.REVAnalogPressureSensor
+        where = "constructor"
         s = cls(d.p_channel) if vcc is None else cls(d.p_channel, vcc)
+        where = "calibrate()"
         try:
             if cal is not None:
                 d.p_sim.setVoltage(cal[0])
                 s.calibrate(cal[1])
+            where = "pressure"
             d.p_sim.setVoltage(v)
             r = s.pressure
         finally:
             s.sensor = None
             del s
     except Exception as e:
-        return ("exc", type(e).__name__)
+        return ("exc", "%s raised %s" % (where, type(e).__name__))
     return num_result(r)
 
 
@@ -643,7 +646,16 @@ NICE_X = [1.0, 3.0, 12.0, 100.0, 0.3048, 2.5, -7.0, 0.0, 1e-6, 123456.789]
 
 
 def oracle_units(im, r, n, first=()):
-    xs = list(first) + NICE_X + [gen_value(r) for _ in range(n)]
+    v = oracle_units_raw(im, list(first))
+    if v:                                    # shrink: a simple value with the same kind of failure
+        w = oracle_units_raw(im, NICE_X)
+        return w if w and w["fingerprint"] == v["fingerprint"] else v
+    return oracle_units_raw(im, NICE_X + [gen_value(r) for _ in range(n)])
+
+
+def oracle_units_raw(im, xs):
+    if not xs:
+        return None
     for x in xs:
         for a in range(4):
             for b in range(4):
@@ -727,31 +739,41 @@ def oracle_forests_raw(im, r, n, first=()):
 
 
 def oracle_sonar(im, r, n, first=()):
+    def scan(extra):
+        for pw in (True, False):
+            base = 0.000147 if pw else 0.0049
+            nice = [base, base * 10, base * 254, base * 1000, 0.0]
+            for x in nice + [gen_period(r) if pw else gen_voltage(r) for _ in range(extra)]:
+                for out in [3, 0, 1, 2, "default"]:
+                    v = check_sonar(im, pw, out, x)
+                    if v:
+                        return v
+        return None
     for pw, out, x in first:
         v = check_sonar(im, pw, out, x)
-        if v:
-            return v
-    for pw in (True, False):
-        base = 0.000147 if pw else 0.0049
-        nice = [base, base * 10, base * 254, 0.0]
-        for x in nice + [gen_period(r) if pw else gen_voltage(r) for _ in range(n)]:
-            for out in [3, 0, 1, 2, "default"]:
-                v = check_sonar(im, pw, out, x)
-                if v:
-                    return v
-    return None
+        if v:                                # shrink: a simple reading with the same kind of failure
+            w = scan(0)
+            return w if w and w["pw"] == v["pw"] else v
+    return scan(n)
 
 
 def oracle_pressure(im, r, n, first=()):
+    first = list(first)
     nice = [(3.3, None, 2.0), (None, None, 2.5), (5.0, None, 0.5), (5.0, None, 0.00001), (5.0, None, 1e-4),
             (5.0, None, 0.0), (0, None, 2.0), (0.0, None, 0.0), (5.0, None, -1.0), (5.0, None, 1e-6),
             (3.3, (2.0, 50), 2.0), (5.0, (0.5, 0), 0.5), (5.0, (0.0, 50), 0.0), (5.0, (1e-6, 60.0), 1e-6),
             (0, (1.0, 100), 1.0), (5.0, (-0.5, 20.0), -0.5)]
-    for vcc, cal, v in list(first) + nice + [gen_pressure_case(r) for _ in range(n)]:
-        w = check_pressure(im, vcc, cal, v)
-        if w:
-            return w
-    return None
+    def scan(cases):
+        for vcc, cal, v in cases:
+            w = check_pressure(im, vcc, cal, v)
+            if w:
+                return w
+        return None
+    w = scan(first)
+    if w:                                    # shrink: a simple case with the same kind of failure
+        w2 = scan(nice)
+        return w2 if w2 and w2["fingerprint"] == w["fingerprint"] else w
+    return scan(nice + [gen_pressure_case(r) for _ in range(n)])
 
 
 # --------------------------------------------------------------------------
